@@ -58,55 +58,35 @@ Proof.
 Qed.
 Print Assumptions C11_write_all_prefix.
 
-(* Full statement "every byte is written unless the system reports an error":
-   refuted.  1024 empty buffers followed by one byte, writev(1024 empty) = 0:
-   uv__fs_write_all takes the 0 for "nothing more to do" and returns 0. *)
-Definition write_complete_stmt (iovmax : nat) : Prop :=
-  forall (fuel : nat) (ans : list answer) (bufs : list (buf nat)) (off : Z) x lg rest,
-  write_all sys_list fuel iovmax ans bufs off = (WDone x, lg, rest) ->
-  honest lg -> progress lg -> x = ROk (total_len bufs).
-
-Theorem C11_write_all_complete_refuted : ~ write_complete_stmt 1024.
-Proof.
-  intros H.
-  specialize (H 1 [AOk 0] (repeat [] 1024 ++ [[7]]) 0%Z (ROk 0)
-                [(mkCall KPosVec (repeat [] 1024) 0%Z, AOk 0)] []).
-  assert (E : ROk 0 = ROk (total_len (repeat ([] : buf nat) 1024 ++ [[7]]))).
-  { apply H.
-    - vm_compute. reflexivity.
-    - repeat constructor.
-    - constructor; [|constructor]. simpl. intros Hlt. exfalso. revert Hlt. vm_compute. lia. }
-  revert E. vm_compute. discriminate.
-Qed.
-Print Assumptions C11_write_all_complete_refuted.
-
-(* What does hold: when no run of iovmax empty buffers is followed by data,
-   the system never fails (EINTR aside) and never answers 0 to a non-empty
-   request, then - for every short-write pattern - all bytes are written and
-   the count returned is their number. *)
-Theorem C11_write_all_complete_partial :
+(* uv_fs_write writes every byte: for EVERY short-write pattern, if the run
+   ends (WDone: fuel only bounds the number of EINTR repetitions), the system
+   never fails except with EINTR and never answers 0 to a window that holds at
+   least one byte (no progress), then all bytes of the list are written, in
+   order, at consecutive positions (C11_write_all_prefix), and the value
+   returned is their number.  Windows made only of empty buffers, of any
+   length and anywhere in the list, are covered (the repaired uv__fs_write_all
+   skips them).  When the system does report an error or makes no progress,
+   C11_write_all_prefix says exactly what was written and returned. *)
+Theorem C11_write_all_complete :
   forall (A St : Type) (sys : St -> rwcall A -> answer * St)
          (fuel iovmax : nat) (s : St) (bufs : list (buf A)) (off : Z) x lg s',
-  1 <= iovmax ->
   write_all sys fuel iovmax s bufs off = (WDone x, lg, s') ->
-  honest lg -> progress lg -> no_empty_window iovmax bufs ->
-  x = ROk (total_len bufs) /\ wcount lg = total_len bufs /\ written lg = concat bufs.
+  honest lg -> progress lg ->
+  x = ROk (total_len bufs) /\ wcount lg = total_len bufs /\ written lg = concat bufs /\
+  offsets_ok off lg.
 Proof.
-  intros A St sys fuel iovmax s bufs off x lg s' Hi H Hh Hp Hw.
-  destruct (write_all_complete_gen sys fuel iovmax s bufs off 0 x lg s' Hi H Hh Hp Hw) as [H1 H2].
-  destruct (write_all_prefix_gen sys fuel iovmax s bufs off 0 _ lg s' H Hh) as (H3 & _).
+  intros A St sys fuel iovmax s bufs off x lg s' H Hh Hp.
+  destruct (write_all_complete_gen sys fuel iovmax s bufs off 0 x lg s' H Hh Hp) as [H1 H2].
+  destruct (write_all_prefix_gen sys fuel iovmax s bufs off 0 _ lg s' H Hh) as (H3 & _ & H4 & _).
   repeat split; auto. rewrite H3, H2. apply firstn_all.
 Qed.
-Print Assumptions C11_write_all_complete_partial.
+Print Assumptions C11_write_all_complete.
 
-(* the side condition holds for every list that fits one call and for every
-   list without empty buffers *)
-Theorem C11_no_empty_window_cases :
-  forall (A : Type) iovmax (bufs : list (buf A)),
-  (length bufs <= iovmax -> no_empty_window iovmax bufs) /\
-  (1 <= iovmax -> Forall (fun b => b <> []) bufs -> no_empty_window iovmax bufs).
-Proof. intros A iovmax bufs. split; [exact (wnd_short iovmax bufs) | exact (wnd_nonempty iovmax bufs)]. Qed.
-Print Assumptions C11_no_empty_window_cases.
+(* regression: the input that used to lose its data (1024 empty buffers, then
+   one byte; writev of the empty window answers 0) *)
+Example C11_write_all_empty_window :
+  fst (fst (write_all sys_list 2 1024 [AOk 0; AOk 1] (repeat [] 1024 ++ [[7]]) 0%Z)) = WDone (ROk 1).
+Proof. vm_compute. reflexivity. Qed.
 
 (* hypotheses satisfiable: two short writes and an EINTR, everything written *)
 Example C11_write_all_example :
@@ -121,32 +101,32 @@ Proof. vm_compute. reflexivity. Qed.
 (* ================= (a) dispatch and routes ================= *)
 
 (* Per operation: the SQE filled in by uv__iou_fs_* means, by the documented
-   meaning of its opcode, the call uv__fs_work makes (ftruncate: only for
-   length 0, see below). *)
+   meaning of its opcode, the call uv__fs_work makes. *)
 Theorem C11_sqe_meaning :
-  forall kv op s, sqe_of kv op = Some s -> api_check op = None -> ring_exact op ->
+  forall kv op s, sqe_of kv op = Some s -> api_check op = None ->
   norm (kernel_of_sqe s) = norm (work op).
 Proof. exact sqe_meaning. Qed.
 Print Assumptions C11_sqe_meaning.
 
-(* uv__iou_fs_ftruncate: the length is in the wrong SQE field. *)
+(* History (before fadabd2): with the length in sqe->len the SQE did not mean
+   ftruncate(fd, len) for any len <> 0. *)
 Theorem C11_routes_agree_ftruncate_refuted :
-  forall kv fd off s, sqe_of kv (OFtruncate fd off) = Some s -> off <> 0%Z ->
-  norm (kernel_of_sqe s) <> norm (work (OFtruncate fd off)) /\
-  ((off mod two32 <> 0)%Z -> kernel_of_sqe s = PInvalid IORING_OP_FTRUNCATE).
-Proof. exact sqe_ftruncate_wrong. Qed.
+  forall fd off, off <> 0%Z ->
+  norm (kernel_of_sqe (old_ftruncate_sqe fd off)) <> norm (work (OFtruncate fd off)) /\
+  ((off mod two32 <> 0)%Z -> kernel_of_sqe (old_ftruncate_sqe fd off) = PInvalid IORING_OP_FTRUNCATE).
+Proof. exact old_sqe_ftruncate_wrong. Qed.
 Print Assumptions C11_routes_agree_ftruncate_refuted.
 
 (* The three routes give the same (result, output, state), for every oracle
    [posix] that does not distinguish legacy entry points from their *at/vector
-   forms, every state, kernel version and operation other than UV_FS_WRITE and
-   ftruncate(len <> 0), provided the kernel's answer is not one the pool
+   forms, every state, kernel version and operation other than UV_FS_WRITE
+   (ftruncate with any length included), provided the kernel's answer is not one the pool
    treats specially (EINTR, EOPNOTSUPP, EINPROGRESS on close, statx unusable). *)
 Theorem C11_routes_agree :
   forall (fs out : Type) (posix : pcall -> fs -> pres out * fs) (no_out : out),
   (forall c st, posix c st = posix (norm c) st) ->
   forall kv fuel op st,
-  ring_exact op -> is_write op = false ->
+  is_write op = false ->
   special out op (fst (posix (work op) st)) = false ->
   (-1 <= rc out (fst (posix (work op) st)))%Z ->
   run fs out posix no_out RRing true kv fuel op st = run fs out posix no_out RPool true kv fuel op st /\
